@@ -1,0 +1,82 @@
+//go:build verif
+
+package main
+
+// Start-up probe for the C16 check of the out-of-tree verification harness (/verif).
+// Compiled only with `-tags verif`. When DASTARD_VERIF_C16 is set, the program runs the real
+// start-up path (setupViper, and for "restore" also RunRPCServer and a source's PrepareRun),
+// writes what it found to the file named by DASTARD_VERIF_C16_OUT and exits before main().
+//
+//	DASTARD_VERIF_C16=startup   config file present before?, setupViper error?, settings read
+//	DASTARD_VERIF_C16=restore   + the status updates RunRPCServer emits while restoring, and the
+//	                            per-channel trigger states PrepareRun restores
+//	DASTARD_VERIF_C16_PORT      RPC port for restore mode
+//	DASTARD_VERIF_C16_NCHAN     channels of the scripted source for restore mode
+
+import (
+	"encoding/json"
+	"fmt"
+	"os"
+	"path/filepath"
+	"strconv"
+	"time"
+
+	"github.com/spf13/viper"
+	"github.com/usnistgov/dastard"
+)
+
+func init() {
+	mode := os.Getenv("DASTARD_VERIF_C16")
+	if mode == "" {
+		return
+	}
+	out := map[string]interface{}{}
+	finish := func() {
+		b, _ := json.Marshal(out)
+		if err := os.WriteFile(os.Getenv("DASTARD_VERIF_C16_OUT"), b, 0664); err != nil {
+			fmt.Fprintln(os.Stderr, err)
+			os.Exit(3)
+		}
+		os.Exit(0)
+	}
+	home, _ := os.UserHomeDir()
+	st, err := os.Stat(filepath.Join(home, ".dastard", "config.yaml"))
+	out["existed"] = err == nil
+	if err == nil {
+		out["sizeBefore"] = st.Size()
+	}
+	if err := setupViper(); err != nil {
+		out["err"] = err.Error()
+		finish()
+	}
+	out["used"] = viper.ConfigFileUsed()
+	out["settings"] = viper.AllSettings()
+	if mode != "restore" {
+		finish()
+	}
+	port, _ := strconv.Atoi(os.Getenv("DASTARD_VERIF_C16_PORT"))
+	nchan, _ := strconv.Atoi(os.Getenv("DASTARD_VERIF_C16_NCHAN"))
+	dastard.VerifC16StartCapture()
+	dastard.RunRPCServer(port, false)
+	// RunRPCServer(block=false) returns once every restored setting has been queued; let the
+	// capture goroutine drain the queue (capacity 10)
+	last := -1
+	for i := 0; i < 100; i++ {
+		time.Sleep(10 * time.Millisecond)
+		n := len(dastard.VerifC16Captured())
+		if n == last && i >= 5 {
+			break
+		}
+		last = n
+	}
+	out["updates"] = dastard.VerifC16Captured()
+	if nchan > 0 {
+		vs := dastard.NewVerifSource(nchan, 10000)
+		if err := vs.VerifPrepare(100, 400); err != nil {
+			out["prepareErr"] = err.Error()
+		} else {
+			out["triggers"] = vs.ComputeFullTriggerState()
+		}
+	}
+	finish()
+}
